@@ -145,9 +145,16 @@ func c04Enumerate(tier string, emit func(*eng.Case)) {
 			opts = append(opts, [2]int{ci, si})
 		}
 	}
-	maxK := 2
-	if tier == "thorough" {
-		maxK = 3
+	// quick: all multisets of <= 2 placements. thorough: additionally every triple that shares one
+	// slot, and every triple over the core carriers (one per mechanism) in any slots. (All triples
+	// of all 658 placements would be 4.7e7 documents; carriers interact through a shared host
+	// element or through the state of the walk, which pairs and these triples cover.)
+	core := map[string]bool{"script": true, "style": true, "comment": true, "hidden": true, "dn": true, "aria": true, "div-hidden": true, "button": true, "noscript": true, "iframe": true, "svg": true, "ctl-style": true}
+	coreSeen := 0
+	for _, c := range c04Carriers {
+		if core[c.name] {
+			coreSeen++
+		}
 	}
 	var rec func(start int, cur [][2]int)
 	rec = func(start int, cur [][2]int) {
@@ -161,10 +168,17 @@ func c04Enumerate(tier string, emit func(*eng.Case)) {
 				emit(&eng.Case{Kind: "leak", HTML: c04Doc(cur), P: map[string]string{"entry": "reader", "doc": strings.Join(d, " + ") + " via ApplyForReader"}})
 			}
 		}
-		if len(cur) == maxK {
+		if len(cur) == 3 || (len(cur) == 2 && tier != "thorough") {
 			return
 		}
 		for i := start; i < len(opts); i++ {
+			if len(cur) == 2 {
+				sameSlot := cur[0][1] == cur[1][1] && cur[1][1] == opts[i][1]
+				allCore := coreSeen >= 6 && core[c04Carriers[cur[0][0]].name] && core[c04Carriers[cur[1][0]].name] && core[c04Carriers[opts[i][0]].name]
+				if !sameSlot && !allCore {
+					continue
+				}
+			}
 			rec(i, append(cur[:len(cur):len(cur)], opts[i]))
 		}
 	}
@@ -412,14 +426,14 @@ func init() {
 		ID:        "C04",
 		DesignRef: "§5 C04",
 		Rule: "fixed host skeleton (article with paragraph, list, layout table, data table, three figures, twitter embed) with 14 slots {top, between paragraphs, inside paragraph, li, layout cell, data cell, caption, caption with link, directly in figure, twitter embed, head, a caption holding only the carriers, inside picture, inside video}; " +
-			"every multiset of <= 2 (quick) / <= 3 (thorough) (carrier, slot) placements over 47 carriers (30 hidden/non-rendered, among them hidden formatting elements inside a javascript: anchor and aria-hidden text under a fallback-image class, incl. hidden elements that also carry a style shared with a visible control, 10 non-reading, 4 visible controls, 2 observe-only CSS spellings), each holding a unique secret token; every single placement is also distilled from bytes through ApplyForReader. " +
+			"every multiset of <= 2 (carrier, slot) placements (thorough: also every triple within one slot and every triple of the 12 core carriers in any slots) over 47 carriers (30 hidden/non-rendered, among them hidden formatting elements inside a javascript: anchor and aria-hidden text under a fallback-image class, incl. hidden elements that also carry a style shared with a visible control, 10 non-reading, 4 visible controls, 2 observe-only CSS spellings), each holding a unique secret token; every single placement is also distilled from bytes through ApplyForReader. " +
 			"Oracle: secrets whose holder (judged on the parsed tree) is script/style/head/comment/hidden never occur in Text nor in result.Node outside embed placeholders; secrets in form controls/noscript/svg/object/applet/unrecognised iframe never occur unless nested in a retained data table or figure. Non-trivial = >= 1 secret and >= 100 words retained.",
 		Enumerate: c04Enumerate,
 		Check:     c04Check,
 		Bounds: func(tier string) map[string]any {
-			k := 2
+			k := "2"
 			if tier == "thorough" {
-				k = 3
+				k = "2, plus triples within one slot and triples of the 12 core carriers"
 			}
 			return map[string]any{"decorated_variants": decorBound(tier), "max_placements": k, "carriers": len(c04Carriers), "slots": len(c04Slots)}
 		},
